@@ -10,6 +10,8 @@
      - cuts the current message into segments               (Segment / NewMsg / Open ...)
      - puts the oldest in-flight segment on the wire         (Emit, with a time step)
      - re-emits a segment that is already on the wire        (Dup)
+     - splits an IPv4 packet into two IP fragments, in order or reversed (Emit with frag = 1 / 2; the capture
+       shows two packets, the importer has to put the datagram together again before TCP/UDP sees it)
      - reorders two adjacent in-flight segments of the SAME direction, bounded
        displacement                                          (Swap)
      - switches to another conversation                      (Interleave)
@@ -48,6 +50,7 @@ CONSTANTS
     MinCuts,    \* a behaviour only counts as finished with at least that many cuts
     MaxAck,     \* pure ACK packets per behaviour
     MaxBulk,    \* bulk blocks per behaviour
+    MaxFrag,    \* IPv4 packets carrying payload that the network splits into two IP fragments, per behaviour
     Dts,        \* time steps (ms) an emitted packet may take: subset of {0, 1, 120000}
     BatchMode   \* "any" | "chrono" | "none" (batching left to Import.tla)
 
@@ -91,7 +94,7 @@ Init ==
     /\ curFile = 1
     /\ clock = 0
     /\ last = [c \in Convs |-> 0]
-    /\ cnt = [dup |-> 0, swap |-> 0, cut |-> 0, ack |-> 0, bulk |-> 0]
+    /\ cnt = [dup |-> 0, swap |-> 0, cut |-> 0, ack |-> 0, bulk |-> 0, frag |-> 0]
     /\ pending = {}
     /\ batches = <<>>
 
@@ -153,8 +156,8 @@ Ideal(c, P) == LET del == DelOf(c, P) IN
 
 \* ------------------------------------------------------------------ events
 Seg(k, d, m, f, t, o) == [k |-> k, d |-> d, m |-> m, f |-> f, t |-> t, o |-> o, disp |-> 0]
-Pkt(c, s, dt, dup) == [c |-> c, k |-> s.k, d |-> s.d, m |-> s.m, f |-> s.f, t |-> s.t, o |-> s.o,
-                       file |-> curFile, dt |-> dt, dup |-> dup, open |-> FALSE, at |-> clock + dt]
+Pkt(c, s, dt, dup, fr) == [c |-> c, k |-> s.k, d |-> s.d, m |-> s.m, f |-> s.f, t |-> s.t, o |-> s.o,
+                           file |-> curFile, dt |-> dt, dup |-> dup, open |-> FALSE, at |-> clock + dt, frag |-> fr]
 
 NFiles       == IF wire = <<>> THEN 0 ELSE Last(wire).file     \* capture files that hold packets
 Busy(c)      == phase[c] \notin {"new", "done"} \/ flight[c] # <<>>
@@ -239,16 +242,18 @@ Step(e) ==
             /\ Same(<<cv, rem, acked, wire, active, curFile, clock, last, cnt, pending, batches>>)
       [] e.a = "Emit" ->
             /\ e.c = active /\ flight[e.c] # <<>> /\ TimeOK(e.c, e.dt)
-            /\ wire' = Append(wire, Pkt(e.c, Head(flight[e.c]), e.dt, FALSE))
+            /\ e.frag # 0 => cnt.frag < MaxFrag /\ cv[e.c].fam = 4 /\ Head(flight[e.c]).k \in {"data", "dgram"}
+            /\ wire' = Append(wire, Pkt(e.c, Head(flight[e.c]), e.dt, FALSE, e.frag))
             /\ flight' = [flight EXCEPT ![e.c] = Tail(@)]
             /\ clock' = clock + e.dt
             /\ last' = [last EXCEPT ![e.c] = clock + e.dt]
-            /\ Same(<<cv, phase, rem, acked, ocnt, active, curFile, cnt, pending, batches>>)
+            /\ cnt' = [cnt EXCEPT !.frag = @ + (IF e.frag # 0 THEN 1 ELSE 0)]
+            /\ Same(<<cv, phase, rem, acked, ocnt, active, curFile, pending, batches>>)
       [] e.a = "Dup" ->
             /\ e.c = active /\ ~Finished(e.c) /\ cnt.dup < MaxDup /\ cnt.dup + cnt.swap < MaxPerturb /\ TimeOK(e.c, e.dt)
             /\ e.i \in DOMAIN wire /\ wire[e.i].c = e.c /\ wire[e.i].k = "data" /\ ~wire[e.i].dup
             /\ wire[e.i].m >= Len(Msgs(e.c)) - 1                 \* a recent one
-            /\ wire' = Append(wire, [wire[e.i] EXCEPT !.file = curFile, !.dt = e.dt, !.dup = TRUE, !.at = clock + e.dt])
+            /\ wire' = Append(wire, [wire[e.i] EXCEPT !.file = curFile, !.dt = e.dt, !.dup = TRUE, !.at = clock + e.dt, !.frag = 0])
             /\ clock' = clock + e.dt
             /\ last' = [last EXCEPT ![e.c] = clock + e.dt]
             /\ cnt' = [cnt EXCEPT !.dup = @ + 1]
@@ -270,7 +275,7 @@ Step(e) ==
       [] e.a = "Bulk" ->
             /\ cnt.bulk < MaxBulk /\ ~AllEmitted /\ TimeOK(0, BulkMs)
             /\ wire' = Append(wire, [c |-> 0, k |-> "bulk", d |-> "c", m |-> cnt.bulk + 1, f |-> 0, t |-> -1, o |-> 0,
-                                     file |-> curFile, dt |-> BulkMs, dup |-> FALSE, open |-> e.open, at |-> clock + BulkMs])
+                                     file |-> curFile, dt |-> BulkMs, dup |-> FALSE, open |-> e.open, at |-> clock + BulkMs, frag |-> 0])
             /\ clock' = clock + BulkMs
             /\ cnt' = [cnt EXCEPT !.bulk = @ + 1]
             /\ Same(<<cv, phase, rem, acked, ocnt, flight, active, curFile, last, pending, batches>>)
@@ -301,7 +306,7 @@ ConvEvents(c) ==
   \cup {[a |-> "PureAck", c |-> c]}
   \cup {[a |-> "Close", c |-> c, d |-> d] : d \in {"c", "s"}}
   \cup {[a |-> "Fin", c |-> c]}
-  \cup {[a |-> "Emit", c |-> c, dt |-> dt] : dt \in Dts}
+  \cup {[a |-> "Emit", c |-> c, dt |-> dt, frag |-> fr] : dt \in Dts, fr \in (IF MaxFrag > 0 THEN {0, 1, 2} ELSE {0})}
   \cup {[a |-> "Dup", c |-> c, i |-> i, dt |-> dt] : i \in DOMAIN wire, dt \in Dts}
   \cup {[a |-> "Swap", c |-> c, i |-> i] : i \in 1 .. (Len(flight[c]) - 1)}
 
